@@ -88,3 +88,36 @@ package consensus
 //@   atcall ConsensusState.signAddVote requires [prevoteOnly] signedMsgType == kproto.PrevoteType
 //@   atcall ConsensusState.signAddVote requires [lockedBlockIsPrevoted] cs.LockedBlock != nil ==> hash == types.blockHashOf(cs.LockedBlock)
 //@   atcall ConsensusState.signAddVote requires [otherwiseValidatedProposalOrNil] cs.LockedBlock == nil && hash != cmn.Hash{} ==> cs.ProposalBlock != nil && hash == types.blockHashOf(cs.ProposalBlock) && err == nil
+
+// ---------------------------------------------------------------- C18: consensus messages survive the wire
+// MsgFromProto copies every scalar field of the decoded variant into the native message (the nested
+// block ids, proposals, votes, parts and bit arrays are converted by their own functions); MsgToProto
+// is the mirror image, so a field dropped on either side is a field that does not survive the round trip.
+//@ trusted func (m Message) ValidateBasic() (err error)
+//@ func MsgFromProto(msg *kcons.Message) (r Message, err error)
+//@   for C18
+//@   modifies *
+//@   ensures [nilRejected] msg == nil ==> err != nil
+//@   ensures [newRoundStep] err == nil && dyntype(old(msg.Sum)) == typeid(*kcons.Message_NewRoundStep) ==> dyntype(r) == typeid(*NewRoundStepMessage) && unbox(r, *NewRoundStepMessage).Height == old(unbox(msg.Sum, *kcons.Message_NewRoundStep).NewRoundStep.Height) && unbox(r, *NewRoundStepMessage).Round == old(unbox(msg.Sum, *kcons.Message_NewRoundStep).NewRoundStep.Round) && unbox(r, *NewRoundStepMessage).Step == old(unbox(msg.Sum, *kcons.Message_NewRoundStep).NewRoundStep.Step) % 256 && unbox(r, *NewRoundStepMessage).SecondsSinceStartTime == old(unbox(msg.Sum, *kcons.Message_NewRoundStep).NewRoundStep.SecondsSinceStartTime) && unbox(r, *NewRoundStepMessage).LastCommitRound == old(unbox(msg.Sum, *kcons.Message_NewRoundStep).NewRoundStep.LastCommitRound)
+//@   ensures [newValidBlock] err == nil && dyntype(old(msg.Sum)) == typeid(*kcons.Message_NewValidBlock) ==> dyntype(r) == typeid(*NewValidBlockMessage) && unbox(r, *NewValidBlockMessage).Height == old(unbox(msg.Sum, *kcons.Message_NewValidBlock).NewValidBlock.Height) && unbox(r, *NewValidBlockMessage).Round == old(unbox(msg.Sum, *kcons.Message_NewValidBlock).NewValidBlock.Round) && unbox(r, *NewValidBlockMessage).IsCommit == old(unbox(msg.Sum, *kcons.Message_NewValidBlock).NewValidBlock.IsCommit)
+//@   ensures [proposalPol] err == nil && dyntype(old(msg.Sum)) == typeid(*kcons.Message_ProposalPol) ==> dyntype(r) == typeid(*ProposalPOLMessage) && unbox(r, *ProposalPOLMessage).Height == old(unbox(msg.Sum, *kcons.Message_ProposalPol).ProposalPol.Height) && unbox(r, *ProposalPOLMessage).ProposalPOLRound == old(unbox(msg.Sum, *kcons.Message_ProposalPol).ProposalPol.ProposalPolRound)
+//@   ensures [blockPart] err == nil && dyntype(old(msg.Sum)) == typeid(*kcons.Message_BlockPart) ==> dyntype(r) == typeid(*BlockPartMessage) && unbox(r, *BlockPartMessage).Height == old(unbox(msg.Sum, *kcons.Message_BlockPart).BlockPart.Height) && unbox(r, *BlockPartMessage).Round == old(unbox(msg.Sum, *kcons.Message_BlockPart).BlockPart.Round)
+//@   ensures [hasVote] err == nil && dyntype(old(msg.Sum)) == typeid(*kcons.Message_HasVote) ==> dyntype(r) == typeid(*HasVoteMessage) && unbox(r, *HasVoteMessage).Height == old(unbox(msg.Sum, *kcons.Message_HasVote).HasVote.Height) && unbox(r, *HasVoteMessage).Round == old(unbox(msg.Sum, *kcons.Message_HasVote).HasVote.Round) && unbox(r, *HasVoteMessage).Type == old(unbox(msg.Sum, *kcons.Message_HasVote).HasVote.Type) && unbox(r, *HasVoteMessage).Index == old(unbox(msg.Sum, *kcons.Message_HasVote).HasVote.Index)
+//@   ensures [voteSetMaj23] err == nil && dyntype(old(msg.Sum)) == typeid(*kcons.Message_VoteSetMaj23) ==> dyntype(r) == typeid(*VoteSetMaj23Message) && unbox(r, *VoteSetMaj23Message).Height == old(unbox(msg.Sum, *kcons.Message_VoteSetMaj23).VoteSetMaj23.Height) && unbox(r, *VoteSetMaj23Message).Round == old(unbox(msg.Sum, *kcons.Message_VoteSetMaj23).VoteSetMaj23.Round) && unbox(r, *VoteSetMaj23Message).Type == old(unbox(msg.Sum, *kcons.Message_VoteSetMaj23).VoteSetMaj23.Type)
+//@   ensures [voteSetBits] err == nil && dyntype(old(msg.Sum)) == typeid(*kcons.Message_VoteSetBits) ==> dyntype(r) == typeid(*VoteSetBitsMessage) && unbox(r, *VoteSetBitsMessage).Height == old(unbox(msg.Sum, *kcons.Message_VoteSetBits).VoteSetBits.Height) && unbox(r, *VoteSetBitsMessage).Round == old(unbox(msg.Sum, *kcons.Message_VoteSetBits).VoteSetBits.Round) && unbox(r, *VoteSetBitsMessage).Type == old(unbox(msg.Sum, *kcons.Message_VoteSetBits).VoteSetBits.Type)
+
+// MsgToProto: the mirror image (native message -> wire message).
+//@ func MsgToProto(msg Message) (r *kcons.Message, err error)
+//@   for C18
+//@   requires dyntype(msg) == typeid(*NewValidBlockMessage) && unbox(msg, *NewValidBlockMessage) != nil && unbox(msg, *NewValidBlockMessage).BlockParts != nil ==> common.wfBits(unbox(msg, *NewValidBlockMessage).BlockParts)
+//@   requires dyntype(msg) == typeid(*ProposalPOLMessage) && unbox(msg, *ProposalPOLMessage) != nil && unbox(msg, *ProposalPOLMessage).ProposalPOL != nil ==> common.wfBits(unbox(msg, *ProposalPOLMessage).ProposalPOL)
+//@   requires dyntype(msg) == typeid(*VoteSetBitsMessage) && unbox(msg, *VoteSetBitsMessage) != nil && unbox(msg, *VoteSetBitsMessage).Votes != nil ==> common.wfBits(unbox(msg, *VoteSetBitsMessage).Votes)
+//@   modifies *
+//@   ensures [nilRejected] msg == nil ==> err != nil
+//@   ensures [newRoundStep] err == nil && dyntype(msg) == typeid(*NewRoundStepMessage) ==> r != nil && dyntype(r.Sum) == typeid(*kcons.Message_NewRoundStep) && unbox(r.Sum, *kcons.Message_NewRoundStep).NewRoundStep.Height == old(unbox(msg, *NewRoundStepMessage).Height) && unbox(r.Sum, *kcons.Message_NewRoundStep).NewRoundStep.Round == old(unbox(msg, *NewRoundStepMessage).Round) && unbox(r.Sum, *kcons.Message_NewRoundStep).NewRoundStep.Step == old(unbox(msg, *NewRoundStepMessage).Step) && unbox(r.Sum, *kcons.Message_NewRoundStep).NewRoundStep.SecondsSinceStartTime == old(unbox(msg, *NewRoundStepMessage).SecondsSinceStartTime) && unbox(r.Sum, *kcons.Message_NewRoundStep).NewRoundStep.LastCommitRound == old(unbox(msg, *NewRoundStepMessage).LastCommitRound)
+//@   ensures [newValidBlock] err == nil && dyntype(msg) == typeid(*NewValidBlockMessage) ==> r != nil && dyntype(r.Sum) == typeid(*kcons.Message_NewValidBlock) && unbox(r.Sum, *kcons.Message_NewValidBlock).NewValidBlock.Height == old(unbox(msg, *NewValidBlockMessage).Height) && unbox(r.Sum, *kcons.Message_NewValidBlock).NewValidBlock.Round == old(unbox(msg, *NewValidBlockMessage).Round) && unbox(r.Sum, *kcons.Message_NewValidBlock).NewValidBlock.IsCommit == old(unbox(msg, *NewValidBlockMessage).IsCommit)
+//@   ensures [proposalPol] err == nil && dyntype(msg) == typeid(*ProposalPOLMessage) ==> r != nil && dyntype(r.Sum) == typeid(*kcons.Message_ProposalPol) && unbox(r.Sum, *kcons.Message_ProposalPol).ProposalPol.Height == old(unbox(msg, *ProposalPOLMessage).Height) && unbox(r.Sum, *kcons.Message_ProposalPol).ProposalPol.ProposalPolRound == old(unbox(msg, *ProposalPOLMessage).ProposalPOLRound)
+//@   ensures [blockPart] err == nil && dyntype(msg) == typeid(*BlockPartMessage) ==> r != nil && dyntype(r.Sum) == typeid(*kcons.Message_BlockPart) && unbox(r.Sum, *kcons.Message_BlockPart).BlockPart.Height == old(unbox(msg, *BlockPartMessage).Height) && unbox(r.Sum, *kcons.Message_BlockPart).BlockPart.Round == old(unbox(msg, *BlockPartMessage).Round)
+//@   ensures [hasVote] err == nil && dyntype(msg) == typeid(*HasVoteMessage) ==> r != nil && dyntype(r.Sum) == typeid(*kcons.Message_HasVote) && unbox(r.Sum, *kcons.Message_HasVote).HasVote.Height == old(unbox(msg, *HasVoteMessage).Height) && unbox(r.Sum, *kcons.Message_HasVote).HasVote.Round == old(unbox(msg, *HasVoteMessage).Round) && unbox(r.Sum, *kcons.Message_HasVote).HasVote.Type == old(unbox(msg, *HasVoteMessage).Type) && unbox(r.Sum, *kcons.Message_HasVote).HasVote.Index == old(unbox(msg, *HasVoteMessage).Index)
+//@   ensures [voteSetMaj23] err == nil && dyntype(msg) == typeid(*VoteSetMaj23Message) ==> r != nil && dyntype(r.Sum) == typeid(*kcons.Message_VoteSetMaj23) && unbox(r.Sum, *kcons.Message_VoteSetMaj23).VoteSetMaj23.Height == old(unbox(msg, *VoteSetMaj23Message).Height) && unbox(r.Sum, *kcons.Message_VoteSetMaj23).VoteSetMaj23.Round == old(unbox(msg, *VoteSetMaj23Message).Round) && unbox(r.Sum, *kcons.Message_VoteSetMaj23).VoteSetMaj23.Type == old(unbox(msg, *VoteSetMaj23Message).Type)
+//@   ensures [voteSetBits] err == nil && dyntype(msg) == typeid(*VoteSetBitsMessage) ==> r != nil && dyntype(r.Sum) == typeid(*kcons.Message_VoteSetBits) && unbox(r.Sum, *kcons.Message_VoteSetBits).VoteSetBits.Height == old(unbox(msg, *VoteSetBitsMessage).Height) && unbox(r.Sum, *kcons.Message_VoteSetBits).VoteSetBits.Round == old(unbox(msg, *VoteSetBitsMessage).Round) && unbox(r.Sum, *kcons.Message_VoteSetBits).VoteSetBits.Type == old(unbox(msg, *VoteSetBitsMessage).Type)
